@@ -181,6 +181,38 @@ Theorem C09_join_index_online_increasing :
 Proof. exact join_index_online_increasing. Qed.
 Print Assumptions C09_join_index_online_increasing.
 
+(* The metadata of the joined file: date, time and sample of the earliest
+   input, the run index given to join (default 1), event count = number of
+   events of all inputs together. *)
+Theorem C09_join_meta_from_earliest :
+  forall (inputs : list meas) (j : joined),
+    join_fixed inputs = Ok j ->
+    exists m0 rest,
+      map snd (sorted_gen leb_num inputs) = m0 :: rest
+      /\ j_date j = m_date m0 /\ j_time j = m_time m0
+      /\ j_sample j = m_sample m0 /\ j_run j = 1
+      /\ Forall (fun m => acq_time8 m0 <= acq_time8 m) (m0 :: rest)
+      /\ forall f fs, j_feats j = f :: fs ->
+           j_count j
+           = fold_right Z.add 0
+               (map (fun m => Z.of_nat (length (getcol f m))) (m0 :: rest)).
+Proof. exact join_meta_from_earliest. Qed.
+Print Assumptions C09_join_meta_from_earliest.
+
+(* export.hdf5's sorted(set(features)): the unique strictly ascending list
+   with the same elements -- for any list, also unsorted or with duplicates;
+   the identity on the list join passes (already strictly ascending). *)
+Theorem C09_sort_dedup_spec :
+  forall l r : list Z,
+    (StronglySorted Z.lt r /\ forall x, In x r <-> In x l) <-> r = sort_dedup l.
+Proof. exact sort_dedup_spec. Qed.
+Print Assumptions C09_sort_dedup_spec.
+
+Theorem C09_sort_dedup_identity :
+  forall l : list Z, StronglySorted Z.lt l -> sort_dedup l = l.
+Proof. exact sort_dedup_id. Qed.
+Print Assumptions C09_sort_dedup_identity.
+
 (* The logs and the configuration of every source are retained. *)
 Theorem C09_join_logs_retained :
   forall (inputs : list meas) (j : joined),
